@@ -82,27 +82,29 @@ impl Skeleton {
         let sklb = SKLB::read(&mut cursor).ok()?;
 
         let root = HavokBinaryTagFileReader::read(&sklb.raw_data)?;
-        let raw_animation_container = root.find_object_by_type("hkaAnimationContainer");
-        let animation_container = HavokAnimationContainer::new(raw_animation_container);
+        let raw_animation_container = root.find_object_by_type("hkaAnimationContainer")?;
+        let animation_container = HavokAnimationContainer::new(raw_animation_container)?;
 
-        let havok_skeleton = &animation_container.skeletons[0];
+        let havok_skeleton = animation_container.skeletons.first()?;
 
         let mut skeleton = Skeleton { bones: vec![] };
 
         for (index, bone) in havok_skeleton.bone_names.iter().enumerate() {
+            // (a skeleton with fewer parent indices or poses than bones is rejected)
+            let reference_pose = havok_skeleton.reference_pose.get(index)?;
             skeleton.bones.push(Bone {
                 name: bone.clone(),
-                parent_index: havok_skeleton.parent_indices[index] as i32,
+                parent_index: *havok_skeleton.parent_indices.get(index)? as i32,
                 position: [
-                    havok_skeleton.reference_pose[index].translation[0],
-                    havok_skeleton.reference_pose[index].translation[1],
-                    havok_skeleton.reference_pose[index].translation[2],
+                    reference_pose.translation[0],
+                    reference_pose.translation[1],
+                    reference_pose.translation[2],
                 ],
-                rotation: havok_skeleton.reference_pose[index].rotation,
+                rotation: reference_pose.rotation,
                 scale: [
-                    havok_skeleton.reference_pose[index].scale[0],
-                    havok_skeleton.reference_pose[index].scale[1],
-                    havok_skeleton.reference_pose[index].scale[2],
+                    reference_pose.scale[0],
+                    reference_pose.scale[1],
+                    reference_pose.scale[2],
                 ],
             });
         }
